@@ -49,7 +49,6 @@ Init ==
   /\ reload = FALSE /\ poolEvt = TRUE /\ pass = NULL
   /\ nuser = 0 /\ nfault = 0 /\ ncrash = 0
   /\ act = [op |-> "Init"]
-  /\ PrintT(ToJson([init |-> [api |-> api, cfgApi |-> cfgApi, stale |-> Stale]]))
 
 (* ---- effects of a change of api[s] on the copies the controller holds -- *)
 (* new value n (NULL = deleted).  Without lag the cache follows at once and *)
@@ -91,7 +90,7 @@ UserLayout(L) ==
 (* the informer delivers the current object of s (only with Stale)          *)
 Sync(s) ==
   /\ Stale /\ EnvOK
-  /\ (IF api[s] = NULL THEN cache[s] # NULL ELSE (cache[s] = NULL \/ cache[s].stale))
+  /\ (IF api[s] = NULL THEN cache[s] # NULL ELSE (IF cache[s] = NULL THEN TRUE ELSE cache[s].stale))
   /\ cache' = [cache EXCEPT ![s] = IF api[s] = NULL THEN NULL ELSE Copy(api[s])]
   /\ svcQ' = svcQ \cup {s}
   /\ act' = [op |-> "Sync", s |-> s]
@@ -225,11 +224,7 @@ Next ==
   \/ PassEnd
   \/ Crash
 
-Spec == Init /\ [][Next]_vars
-FairSpec == Spec /\ WF_vars(PoolReconcile) /\ WF_vars(PassBegin) /\ WF_vars(PassEnd)
-                 /\ WF_vars(\E s \in Svcs : ReconcileOne(s, "ok")) /\ WF_vars(\E s \in Svcs : PassStep(s, "ok"))
-                 /\ WF_vars(\E s \in Svcs : Sync(s))
-
+SpecNoPrint == Init /\ [][Next]_vars
 Quiescent == /\ svcQ = {} /\ ~reload /\ ~poolEvt /\ pass = NULL /\ gate /\ ctl # NOCFG
              /\ \A s \in Svcs : (api[s] = NULL /\ cache[s] = NULL) \/ (api[s] # NULL /\ cache[s] # NULL /\ ~cache[s].stale)
 
@@ -238,6 +233,11 @@ StateRec == [api |-> api, cache |-> cache, cfgApi |-> cfgApi, ctl |-> ctl, al |-
 StateRecP == [api |-> api', cache |-> cache', cfgApi |-> cfgApi', ctl |-> ctl', al |-> al', gate |-> gate', svcQ |-> svcQ',
               reload |-> reload', poolEvt |-> poolEvt', pass |-> pass', q |-> Quiescent']
 Emit == PrintT(ToJson([pre |-> StateRec, act |-> act', post |-> StateRecP, n |-> nuser]))
+InitP == Init /\ PrintT(ToJson([init |-> StateRec, stale |-> Stale]))
+Spec == InitP /\ [][Next]_vars
+FairSpec == Spec /\ WF_vars(PoolReconcile) /\ WF_vars(PassBegin) /\ WF_vars(PassEnd)
+                 /\ WF_vars(\E s \in Svcs : ReconcileOne(s, "ok")) /\ WF_vars(\E s \in Svcs : PassStep(s, "ok"))
+                 /\ WF_vars(\E s \in Svcs : Sync(s))
 
 ----------------------------------------------------------------------------
 (* Role A: the properties on the design                                     *)
